@@ -96,6 +96,8 @@ def main():
             raise core.Machinery("runner subprocess failed")
     runs = [json.load(open(os.path.join(wd, "traces_%d.json" % hs))) for hs in seeds]
     merged = merge_seeds(runs)
+    import shutil
+    shutil.rmtree(wd, ignore_errors=True)
     vs_, gen, dist = core.validate("C11", merged, batch=150)
     rep.add_traces(merged, vs_, gen, dist, nontrivial_key=lambda c: str([o["text"] for o in c["objs"][:3]]) + str(c["events"][len(c["objs"])].get("w", "")))
     rep.extra["hash_seeds"] = seeds
